@@ -395,9 +395,37 @@ def r5(ctx, R):
         raise AnalysisError("no resolver call in diagnostic-producing code")
 
 
+def r6(ctx, R):
+    R.rule("C07.R6", "state inherited from host scopes (IMPLICIT typing) is looked up through the whole chain: a getter that falls back to the parent asks the parent's getter, not the parent's field", floor=1, confirmed=1)
+    base = ctx.m.cname.get("FortranObj")
+    n = 0
+    for c in sorted(ctx.m.cone(base)):
+        for nm, q in ctx.m.classes[c].methods.items():
+            f = ctx.m.funcs[q]
+            if not nm.startswith("get_"):
+                continue
+            own = {n_.attr for r in ctx.m.walk_own(f.node) if isinstance(r, ast.Return) and r.value is not None for n_ in ast.walk(r.value) if isinstance(n_, ast.Attribute) and unparse(n_.value) == "self"}
+            parent_reads = [n_ for n_ in ctx.m.walk_own(f.node) if isinstance(n_, ast.Attribute) and unparse(n_.value) == "self.parent"]
+            if not parent_reads or not own:
+                continue
+            # fall-back to the host for the same piece of state
+            same_field = [n_ for n_ in parent_reads if n_.attr in own]
+            recursive = [n_ for n_ in parent_reads if n_.attr == nm and isinstance(ctx.m.parent.get(n_), ast.Call)]
+            if not same_field and not recursive:
+                continue
+            n += 1
+            if same_field and not recursive:
+                R.violation("C07.R6", f.short, f"{nm}: host fall-back", loc(f, same_field[0]), f"the fall-back reads `self.parent.{same_field[0].attr}` directly: only the immediate host is consulted, so IMPLICIT NONE of a module does not reach a procedure nested two levels down and its undeclared dummy arguments are not reported")
+            else:
+                R.ok("C07.R6", f.short, f"{nm}: host fall-back", loc(f, recursive[0]), f"asks self.parent.{nm}()")
+    if n == 0:
+        raise AnalysisError("no getter with a host fall-back found (get_implicit expected)")
+
+
 def run(ctx, R):
     r1(ctx, R)
     r2(ctx, R)
     r3(ctx, R)
     r4(ctx, R)
     r5(ctx, R)
+    r6(ctx, R)
